@@ -140,7 +140,17 @@ pub fn check_scenario(case: &Case, sc: &Scenario, order: (usize, u64, u32), acc:
             }
         };
         match serde_json::from_str::<DependencySnapshot>(&text) {
-            Ok(s) => s,
+            Ok(s) => {
+                // a restored snapshot is a snapshot like any other: it goes through a second round trip
+                let again = serde_json::to_string(&s).ok().and_then(|t| serde_json::from_str::<DependencySnapshot>(&t).ok());
+                match again {
+                    Some(s2) => s2,
+                    None => {
+                        acc.violation(viol("serde-second-round-trip", "a deserialised snapshot cannot be serialised and deserialised again".into(), case, sc, order));
+                        return;
+                    }
+                }
+            }
             Err(e) => {
                 acc.violation(viol("serde-de", format!("{e}"), case, sc, order));
                 return;
